@@ -513,6 +513,111 @@ Qed.
 
 (** ** Tie to the source by translation: [maybe_fix_sim_time_roundoff] of the model is the transcribed
     expression [dt * jnp.round(state.sim_time / dt)] (tools/translate/gen_combinators.py). *)
+(** ** round 2: the named hypotheses of the concrete primitive-equation theorems derived from more primitive facts *)
+From Dino Require Import Model.Legendre Model.Symmetry Thm.SymmetryLegendre.
+
+Section C11_primitive_equations_derived.
+  Context {F : Type} {o : Ops F} {Fc : FieldC o}.
+  Variables (g : @HGrid F) (c : @PEcfg F) (grav : F) (orog : nat -> nat -> F) (invt : F -> nat -> @Mat F).
+  Let E := explicit_terms_full g c grav orog.
+  Let G := implicit_terms_full g c.
+  Let Gi := fun eta => implicit_inverse_full g c eta (invt eta).
+
+  (** pe_H_inv0_div_rows holds for EVERY right inverse of the assembled implicit matrix at total wavenumber 0
+      (whose divergence rows are the unit rows [I 0 0] because the laplacian eigenvalue is 0) *)
+  Theorem C11_pe_right_inverse_div_rows :
+    hr g <> 0 -> (2 <= hL g)%nat -> pe_H_inv0_right_inverse g c invt -> pe_H_inv0_div_rows c invt.
+  Proof. exact (pe_right_inverse_div_rows g c invt). Qed.
+
+  (** pe_H_p_support holds for the table the code builds: basis.p[a] = legendre.evaluate(M, L, x)[|m(a)|]
+      (Model/Legendre.v; the support is proved from the recurrence in Thm/Legendre.v) *)
+  Theorem C11_pe_H_p_support_from_recurrence (sq : F -> F) (x y : nat -> F) :
+    pe_p_is_evaluate g sq x y -> pe_H_p_support g.
+  Proof. exact (pe_H_p_support_from_recurrence g sq x y). Qed.
+
+  (** pe_H_deriv_mask holds whenever the recurrence weight a vanishes at l = |m| (reference layout; ANY b, radius) *)
+  Theorem C11_pe_H_deriv_mask_from_weights : pe_H_a_diag g -> pe_H_deriv_mask g.
+  Proof. exact (pe_H_deriv_mask_from_weights g). Qed.
+
+  (** the pattern theorems resting on: basis.p is the recurrence table, a = 0 at l = |m|, orography in the mask *)
+  Theorem C11_pe_explicit_into_Supp_from_recurrence (sq : F -> F) (x y : nat -> F) (s : @State F) :
+    pe_p_is_evaluate g sq x y -> pe_H_a_diag g -> pe_masked g orog -> StSupp g (E s).
+  Proof. exact (pe_explicit_into_Supp_from_recurrence g c grav orog sq x y s). Qed.
+
+  Theorem C11_primeq_trajectory_in_subspace_from_recurrence (sq : F -> F) (x y : nat -> F)
+          (t : stepterm F) (filters : list (@State F -> @State F -> @State F)) :
+    pe_p_is_evaluate g sq x y -> pe_H_a_diag g -> pe_masked g orog ->
+    (forall f, In f filters -> forall u un, StSupp g u -> StSupp g un -> StSupp g (f u un)) ->
+    forall k u, StSupp g u ->
+      StSupp g (iter k (with_filters (step_of (vo := StateSp) E G Gi t) filters) u).
+  Proof. exact (primeq_trajectory_in_subspace_from_recurrence g c grav orog invt sq x y t filters). Qed.
+
+  Theorem C11_primeq_leapfrog_trajectory_in_subspace_from_recurrence (sq : F -> F) (x y : nat -> F) (t : stepterm F)
+          (filters : list (@State F * @State F -> @State F * @State F -> @State F * @State F)) :
+    pe_p_is_evaluate g sq x y -> pe_H_a_diag g -> pe_masked g orog ->
+    (forall f, In f filters -> forall u un, S2 (StSupp g) u -> S2 (StSupp g) un -> S2 (StSupp g) (f u un)) ->
+    forall k u, S2 (StSupp g) u ->
+      S2 (StSupp g) (iter k (with_filters (lf_step_of (vo := StateSp) E G Gi t) filters) u).
+  Proof. exact (primeq_leapfrog_trajectory_in_subspace_from_recurrence g c grav orog invt sq x y t filters). Qed.
+
+  (** global means of vorticity AND divergence never change, from ANY initial state, for every consistent step term,
+      every number of steps: the only fact about the inverse tables is that the one of total wavenumber 0 is a right inverse *)
+  Theorem C11_primeq_means_conserved_from_inverse (t : stepterm F) (cs : F)
+          (filters : list (@State F -> @State F -> @State F)) lev :
+    hr g <> 0 -> (2 <= hL g)%nat -> (0 < hR g)%nat ->
+    consistent t cs ->
+    (forall f, In f filters -> forall u un, P_vort lev (f u un) = P_vort lev un /\ P_div lev (f u un) = P_div lev un) ->
+    pe_H_inv0_right_inverse g c invt -> (lev < cK c)%nat ->
+    forall k u,
+      P_vort lev (iter k (with_filters (step_of (vo := StateSp) E G Gi t) filters) u) = P_vort lev u /\
+      P_div lev (iter k (with_filters (step_of (vo := StateSp) E G Gi t) filters) u) = P_div lev u.
+  Proof. exact (primeq_means_conserved_from_inverse g c grav orog invt t cs filters lev). Qed.
+
+  (** semi_implicit_leapfrog (any dt, alpha), any filters that keep "both snapshots have mean m": if both snapshots start
+      with the same global mean m it stays m on both snapshots for every number of steps (the unfiltered scheme alone would
+      only swap the two means) *)
+  Theorem C11_primeq_leapfrog_means_conserved (dt alpha : F) lev (mv md : F)
+          (filters : list (@State F * @State F -> @State F * @State F -> @State F * @State F)) :
+    hr g <> 0 -> (2 <= hL g)%nat -> (0 < hR g)%nat ->
+    (forall k u, (forall f, In f filters -> forall v vn, Pm (P_vort lev) mv v -> Pm (P_vort lev) mv vn -> Pm (P_vort lev) mv (f v vn)) ->
+                 Pm (P_vort lev) mv u ->
+                 Pm (P_vort lev) mv (iter k (with_filters (lf_step_of (vo := StateSp) E G Gi (leapfrog_term dt alpha)) filters) u)) /\
+    (pe_H_inv0_right_inverse g c invt -> (lev < cK c)%nat ->
+     forall k u, (forall f, In f filters -> forall v vn, Pm (P_div lev) md v -> Pm (P_div lev) md vn -> Pm (P_div lev) md (f v vn)) ->
+                 Pm (P_div lev) md u ->
+                 Pm (P_div lev) md (iter k (with_filters (lf_step_of (vo := StateSp) E G Gi (leapfrog_term dt alpha)) filters) u)).
+  Proof. exact (primeq_leapfrog_means_conserved g c grav orog invt dt alpha lev mv md filters). Qed.
+End C11_primitive_equations_derived.
+
+(** the new hypotheses are satisfiable over Qc: a grid whose Legendre table IS the recurrence table (M = 2, L = 3, two
+    nodes; non-zero entry), a weight table with a = 0 exactly at l = |m| and 1 elsewhere, a one-level configuration with
+    the exact inverse at total wavenumber 0 for every eta *)
+Definition ex2_x : nat -> Qc := fun j => if Nat.eqb j 0 then Q2Qc (-1 # 2) else Q2Qc (1 # 2).
+Definition ex2_y : nat -> Qc := fun _ => Q2Qc (1 # 2).
+Definition ex2_sq : Qc -> Qc := fun v => v.
+Definition ex2_grid : @HGrid Qc :=
+  mkHG 2 3 2 2 1 (fun _ _ => 1) (leg_basis_p false ex2_sq 2 ex2_x ex2_y 2 3) (fun _ => 1)
+       (fun a l => if Nat.eqb l (dref_j a) then 0 else 1) (fun _ _ => 1) (fun _ => 1) (fun _ => 0) 1.
+Definition ex2_cfg : @PEcfg Qc := mkPE 1 1 1 (fun k => fofZ (Z.of_nat k)) (fun k => fofZ (Z.of_nat k)) (fun _ => 1).
+Example C11_pe_round2_hyps_satisfiable :
+  pe_p_is_evaluate ex2_grid ex2_sq ex2_x ex2_y /\ pe_H_a_diag ex2_grid /\
+  pe_H_inv0_right_inverse ex2_grid ex2_cfg (fun eta _ => pe_inv0_one_level ex2_cfg eta) /\
+  hp ex2_grid 0%nat 0%nat 0%nat <> 0 /\ ha ex2_grid 1%nat 2%nat <> 0 /\
+  pe_H_p_support ex2_grid /\ pe_H_deriv_mask ex2_grid.
+Proof.
+  assert (A : pe_p_is_evaluate ex2_grid ex2_sq ex2_x ex2_y) by (intros a j l _ _ _; reflexivity).
+  assert (B : pe_H_a_diag ex2_grid).
+  { intros a l _ _ ->. cbn [ex2_grid ha]. now rewrite Nat.eqb_refl. }
+  split; [exact A|]. split; [exact B|]. split; [|split; [|split; [|split]]].
+  - intros eta i j Hi Hj. cbn [ex2_cfg cK] in Hi, Hj.
+    apply (pe_inv0_one_level_right_inverse ex2_cfg eta _ i j eq_refl); [|lia|lia].
+    apply (lap_eig_0 3 1 3); [|lia|lia|lia]. cbn [ex2_grid hr]. destruct (field_c (o := QcOps)); auto.
+  - intro H. vm_compute in H. discriminate H.
+  - intro H. vm_compute in H. discriminate H.
+  - exact (pe_H_p_support_from_recurrence ex2_grid ex2_sq ex2_x ex2_y A).
+  - exact (pe_H_deriv_mask_from_weights ex2_grid B).
+Qed.
+
 From Dino Require Import Gen.CombinatorsSrc Thm.CombinatorsSrc.
 Theorem C11_fix_time_is_source {F : Type} {o : Ops F} {Fc : FieldC o} (rnd : F -> Z) (dt t : F) :
   fix_time rnd dt t = fix_time_src (fun x => fofZ (rnd x)) dt t /\ gen_combinators_ok = true.
@@ -555,3 +660,12 @@ Print Assumptions C11_primeq_leapfrog_trajectory_in_subspace.
 Print Assumptions C11_primeq_means_conserved.
 Print Assumptions C11_pe_hyps_satisfiable.
 Print Assumptions C11_fix_time_is_source.
+Print Assumptions C11_pe_right_inverse_div_rows.
+Print Assumptions C11_pe_H_p_support_from_recurrence.
+Print Assumptions C11_pe_H_deriv_mask_from_weights.
+Print Assumptions C11_pe_explicit_into_Supp_from_recurrence.
+Print Assumptions C11_primeq_trajectory_in_subspace_from_recurrence.
+Print Assumptions C11_primeq_leapfrog_trajectory_in_subspace_from_recurrence.
+Print Assumptions C11_primeq_means_conserved_from_inverse.
+Print Assumptions C11_primeq_leapfrog_means_conserved.
+Print Assumptions C11_pe_round2_hyps_satisfiable.
